@@ -115,6 +115,9 @@ class Body(Protocol):
 
     def connectionLost(self, reason):
         self.rec["lost"].append(reason)
+        hook = self.rec.get("on_lost")
+        if hook is not None:
+            hook()
 
 
 # ------------------------------------------------------------------ response generation
@@ -238,18 +241,43 @@ def serialise_h11(sim, spec, seg, request_bytes, method):
 
 # ------------------------------------------------------------------ one request/response round
 
-def one_round(sim, proto, t, round_no, flags):
+def issue(sim, proto, t, round_no):
+    """Issue one request now (possibly from inside a callback); the response is driven later by one_round(pre=...)."""
     method = sim.draw_weighted([(b"GET", 5), (b"HEAD", 2), (b"POST", 1)], "method")
     persistent = sim.draw_bool(0.5, "persistent")
+    nwritten = len(t.written)
+    req = _newclient.Request(method, b"/r%d" % round_no, Headers({b"host": [b"sim.example"]}), None, persistent=persistent)
+    pre = {"method": method, "persistent": persistent, "results": [], "on_result": None}
+
+    def cb(res):
+        pre["results"].append(res)
+        if pre["on_result"] is not None:
+            pre["on_result"](res)
+        return None
+
+    with sim.guard("raised", "request"):
+        d = proto.request(req)
+    d.addBoth(cb)
+    pre["request_bytes"] = bytes(t.written[nwritten:])
+    t.take()
+    return pre
+
+
+def one_round(sim, proto, t, round_no, flags, pre=None, on_body_lost=None):
+    if pre is None:
+        method = sim.draw_weighted([(b"GET", 5), (b"HEAD", 2), (b"POST", 1)], "method")
+        persistent = sim.draw_bool(0.5, "persistent")
+    else:
+        method, persistent = pre["method"], pre["persistent"]
     spec = draw_spec(sim, method)
     if spec["framing"] == "close":
         use_h11 = False          # h11 never produces a close-delimited body for an HTTP/1.1 client
     else:
         use_h11 = sim.draw_bool(0.5, "h11")
     nwritten = len(t.written)
-    req = _newclient.Request(method, b"/r%d" % round_no, Headers({b"host": [b"sim.example"]}), None, persistent=persistent)
-    results = []
-    rec = {"made": 0, "data": b"", "lost": [], "data_after_lost": False}
+    req = None if pre is not None else _newclient.Request(method, b"/r%d" % round_no, Headers({b"host": [b"sim.example"]}), None, persistent=persistent)
+    results = [] if pre is None else pre["results"]
+    rec = {"made": 0, "data": b"", "lost": [], "data_after_lost": False, "on_lost": on_body_lost}
     st = {"body": None, "attach": sim.draw_weighted([("callback", 4), ("later", 4), ("after_loss", 2)], "attach")}
     pause_p = sim.draw_choice([0.0, 0.0, 0.3], "pause_p")
 
@@ -261,17 +289,22 @@ def one_round(sim, proto, t, round_no, flags):
             resp.deliverBody(st["body"])
 
     def on_result(res):
-        results.append(res)
+        if pre is None:
+            results.append(res)
         sim.event("request-result", "F:" + res.type.__name__ if isinstance(res, Failure) else "response %d" % res.code)
         if not isinstance(res, Failure) and st["attach"] == "callback" and len(results) == 1:
             attach()
         return None
 
-    with sim.guard("raised", "request"):
-        d = proto.request(req)
-    d.addBoth(on_result)
-    request_bytes = bytes(t.written[nwritten:])
-    t.take()
+    if pre is None:
+        with sim.guard("raised", "request"):
+            d = proto.request(req)
+        d.addBoth(on_result)
+        request_bytes = bytes(t.written[nwritten:])
+        t.take()
+    else:
+        pre["on_result"] = on_result
+        request_bytes = pre["request_bytes"]
     seg = Seg()
     if use_h11:
         serialise_h11(sim, spec, seg, request_bytes, method)
@@ -397,11 +430,13 @@ def one_round(sim, proto, t, round_no, flags):
         if (lost[0] is None and pos >= total and k >= total and framing != "close" and not resp_close
                 and proto.state == "QUIESCENT" and not t.disconnecting and (st["body"] is not None or st["attach"] == "after_loss")):
             break
+        if flags.get("second_issued") and round_no == 0 and lost[0] is None:
+            break   # the next request was issued re-entrantly from this response's body connectionLost: round over
     if st["body"] is None and results and not isinstance(results[0], Failure):
         attach()                      # DEFERRED_CLOSE path: body handed over after everything happened
         sim.probe("attach_after_end")
         check()
-    if lost[0] is None:
+    if lost[0] is None and not (flags.get("second_issued") and round_no == 0):
         # only reachable on a quiescent persistent connection
         sim.check("quiescent-after-complete-response", proto.state == "QUIESCENT" and pos >= total, "state",
                   "round ended without loss in state %s pos=%d/%d" % (proto.state, pos, total))
@@ -431,10 +466,27 @@ def run(sim):
     flags = {}
     rounds = 0
     alive = True
+    # the second request may be issued re-entrantly, from inside the first response's body connectionLost
+    # (what Agent + a persistent pool do when readBody's callback starts the next request)
+    reentrant = sim.draw_bool(0.3, "reentrant_second")
+    holder = {}
+
+    def issue_second():
+        if proto.state == "QUIESCENT" and "pre" not in holder and not t.disconnecting:
+            sim.probe("second_request_from_body_connectionLost")
+            sim.event("reentrant-second-request")
+            flags["second_issued"] = True
+            holder["pre"] = issue(sim, proto, t, 1)
+
     while alive and rounds < 2:
-        alive = one_round(sim, proto, t, rounds, flags)
+        if rounds == 0:
+            alive = one_round(sim, proto, t, 0, flags, on_body_lost=issue_second if reentrant else None)
+        elif "pre" in holder:
+            alive = one_round(sim, proto, t, 1, flags, pre=holder["pre"])
+        else:
+            alive = one_round(sim, proto, t, rounds, flags)
         rounds += 1
-        if alive and not sim.draw_bool(0.7, "second_request"):
+        if alive and "pre" not in holder and not sim.draw_bool(0.7, "second_request"):
             break
     if alive:
         sim.event("final-lose")
